@@ -21,7 +21,23 @@ from flexstack.geonet.service_access_point import (
 from flexstack.geonet.position_vector import LongPositionVector, TST
 import flexstack.geonet.router as router_mod
 
-MODULES = ["Props.C20"]
+import os as _os
+import common as _common
+
+
+def _bridge_available():
+    """Props.C20Bridge is an obligation only when py2lean could translate the current source
+    (otherwise the run records `extract-skipped` and relies on correspondence alone)"""
+    try:
+        import gen_lean
+        gen_lean.generate_all()
+        txt = open(_os.path.join(_common.LEAN, "Generated", "Extracted.lean")).read()
+        return "extract-skipped" not in txt and "def LT_set_value_in_millis" in txt
+    except Exception:
+        return False
+
+
+MODULES = ["Props.C20"] + (["Props.C20Bridge"] if _bridge_available() else [])
 DRIVERS = ["LT"]
 TRUSTED = [
     "modelled rather than verified: the float glue int(max_packet_lifetime*1000) (covered by running every integer "
@@ -331,6 +347,7 @@ def run(ctx):
                          "transports through a real Router; receiver guard pairs. distinct_nontrivial counts distinct "
                          "(multiplier,base) results, codes, router cases and guard pairs")
     capped = detect_capped()
+    ctx.extra["extraction"] = "bridged (Props.C20Bridge)" if "Props.C20Bridge" in MODULES else "extract-skipped"
     ctx.extra["variant"] = {"C20-KF1": "capped (code as is)" if capped else "uncapped (repaired)"}
     router_mod.Timer = _NoTimer
     try:
